@@ -63,6 +63,14 @@ def numeric_fields(ctx, cfgs):
                     yield cfg, I, C, struct, p, kind, (off, w), flat[p], o
 
 
+def _sentinel(kind, width):
+    parts = kind.split(":")
+    sent = SENT[parts[0]] if parts[0] in SENT else (int(parts[1]) if len(parts) > 1 and parts[1].lstrip("-").isdigit() else None)
+    if sent is not None and sent < 0:
+        sent += 1 << width
+    return sent
+
+
 def field_table(chk, pid, I, C, cfg, struct, p, kind, offw, term, o, cache):
     """-> (rows, callsite set, leaf) or None (a violation has been recorded)"""
     core, ws = strip_wrappers(term)
@@ -122,6 +130,12 @@ def run(ctx, chk):
         for (sets, res, s2, rv) in rows:
             codes = sets[0]
             if res == ("none",):
+                # only the field's 'not available' code may lack a scaled value (which code that is, is C11's
+                # business; here: every other raw value must be reported, scaled)
+                sent = _sentinel(kind, offw[1])
+                extra = codes if sent is None else codes.minus(IntSet.of(sent))
+                chk.ob(extra.is_empty(), "C10/unscaled/%s/%s/%s" % (struct, p, extra.iv[:2]),
+                       "%s.%s [%s, decoder %s]: no value is reported for raw values %r, expected raw*%s" % (struct, p, cfg, leaf, extra, want))
                 continue
             if res[0] == "some":
                 val = res[1]
